@@ -243,12 +243,19 @@ impl Conn {
 thread_local! {
     static LAST_PANIC: RefCell<Option<String>> = const { RefCell::new(None) };
     static QUIET: Cell<bool> = const { Cell::new(false) };
+    static THREAD_PANICS: Cell<u64> = const { Cell::new(0) };
+}
+
+/// number of panics raised on this OS thread so far
+pub fn thread_panics() -> u64 {
+    THREAD_PANICS.with(|c| c.get())
 }
 static HOOK: Once = Once::new();
 pub static PANICS: AtomicU64 = AtomicU64::new(0);
 
 fn hook_fn(info: &panic::PanicHookInfo<'_>) {
     PANICS.fetch_add(1, Ordering::SeqCst);
+    THREAD_PANICS.with(|c| c.set(c.get() + 1));
     let loc = info.location().map(|l| format!("{}:{}", l.file(), l.line())).unwrap_or_default();
     let msg = if let Some(s) = info.payload().downcast_ref::<&str>() {
         s.to_string()
@@ -258,7 +265,7 @@ fn hook_fn(info: &panic::PanicHookInfo<'_>) {
         "panic".to_string()
     };
     let text = format!("{} @ {}", msg, loc);
-    if !QUIET.with(|q| q.get()) {
+    if !QUIET.with(|q| q.get()) || std::env::var("MC_LOUD").is_ok() {
         eprintln!("panic: {}", text);
     }
     LAST_PANIC.with(|p| *p.borrow_mut() = Some(text));
